@@ -1550,6 +1550,27 @@ def d6(ctx: Ctx):
                     props=["C17", "C18", "C19"],
                     witness="" if okx else "a picture whose last run is escape-coded",
                 )
+            # a clamp `r = min(r, f(ctr))` keeps a run of exactly `ctr` samples whole
+            for a_ in ast.walk(wl):
+                if isinstance(a_, ast.Assign) and len(a_.targets) == 1 and isinstance(a_.targets[0], ast.Name) and a_.targets[0].id in runs_ and isinstance(a_.value, ast.Call) and call_name(a_.value) == "min":
+                    rv = a_.targets[0].id
+                    cs_ = names_loaded(a_.value) & ctrs_
+                    if len(cs_) != 1 or names_loaded(a_.value) - cs_ - {rv, "min", "max"}:
+                        continue
+                    cv = next(iter(cs_))
+                    try:
+                        vals_ = [_ie6(x_, {cv: 5, rv: 5}) for x_ in a_.value.args]
+                    except _IEE6:
+                        continue
+                    okc_ = min(vals_) == 5
+                    ctx.ob(
+                        f"{dec}.run-clamp:{rv}",
+                        okc_,
+                        "" if okc_ else f"`{unparse(a_)}` cuts a run of {rv} = 5 samples down to {min(vals_)} when exactly {cv} = 5 are left: the sample that completes the picture is never written by a final run",
+                        file=rel,
+                        line=a_.lineno,
+                        props=["C17", "C18", "C19"],
+                    )
             # the same accounting written per run: `for _ in range(n): write ...` followed by `counter -= n` in the while body.
             # Nothing can stop the repeat at the end of the picture in this form: it is the unguarded repeat loop.
             for k_, st in enumerate(wl.body):
@@ -1938,6 +1959,20 @@ def d12(ctx: Ctx):
                         line=binds_[0].lineno,
                         props=["C17", "C19"],
                     )
+        # the record handed to unsquash ends where the next one begins: an open-ended slice lets a damaged group read on
+        # into the following records instead of failing
+        for c_ in [x for x in ast.walk(st) if isinstance(x, ast.Call) and call_name(x) == "unsquash" and x.args]:
+            a0 = resolve_alias(st, c_.args[0])
+            if isinstance(a0, ast.Subscript) and isinstance(a0.slice, ast.Slice):
+                okb_ = a0.slice.lower is not None and a0.slice.upper is not None
+                ctx.ob(
+                    "veftopng.records:slice",
+                    okb_,
+                    "" if okb_ else f"unsquash is handed `{unparse(a0)}`: the record has no end, a group whose length byte is damaged takes its bytes from the following records and the conversion `succeeds` with a garbled or short picture",
+                    file=rel,
+                    line=c_.lineno,
+                    props=["C19", "C17"],
+                )
         # squashed files: one record per `record length` bytes of the picture, whatever the type
         sq = [n for n in ast.walk(st) if isinstance(n, (ast.While, ast.For)) and any(isinstance(c, ast.Call) and call_name(c) == "unsquash" for b in n.body for c in ast.walk(b))]
         if wv and hv and cv and lv and len(sq) == 1:
